@@ -34,6 +34,19 @@ CHECKS = {
              "transaction behaviour modelled from the translated constraint flags, observed through the correspondence.",
         technique="Lean 4 proof (invariant + induction over the stream) + translator + differential correspondence",
     ),
+    "C12": dict(
+        category="proof",
+        text="Lean theorems about Store.stream for every store and every optional (name -> ids) filter: the streamed spans "
+             "are a permutation of the stored spans passing the filter; every workflow name occurs once; under a name every "
+             "trace id occurs once; the group streamed for (name, id) is exactly the selected spans of that name and id; an "
+             "empty filter map streams everything. Proved from a verified stable sort and consecutive grouping. The model is "
+             "compared with SQLDataHolder.stream_data over random multi-name stores, batch sizes {1,2,3,1000} and six kinds "
+             "of filters, with an independent grouping oracle.",
+        ref="DESIGN.md §5 C12",
+        note="Trusted: Lean kernel; axioms propext, Quot.sound, Classical.choice; SQL ORDER BY/collation, yield_per and "
+             "lazy nested generators are runtime behaviour observed through the correspondence only.",
+        technique="Lean 4 proof (sortedness + groupBy lemmas) + differential correspondence",
+    ),
     "C16": dict(
         category="proof",
         text="Lean theorems for every instant 1970..2100 at µs precision: calendar round trip (kernel-checked table of all "
